@@ -740,4 +740,46 @@ theorem fmtPos_props (a : Rat) (ha : 0 < a) (hlo : pow10 (-1000) ≤ a) (hhi : a
       _ ≤ a * (1 / 2000000) := by linarith
 
 
+/-! ### `_sum_track_signal`: the slice as a sum over pixel positions -/
+
+/-- the elements at positions `a ≤ p < b`, summed position by position -/
+def windowSum (l : List Int) (a b : Nat) : Int :=
+  (((List.range l.length).filter (fun p => decide (a ≤ p ∧ p < b))).map (fun p => (l[p]?).getD 0)).sum
+
+theorem windowSum_cons (x : Int) (xs : List Int) (a b : Nat) :
+    windowSum (x :: xs) a b = (if a = 0 ∧ 0 < b then x else 0) + windowSum xs (a - 1) (b - 1) + 0 := by
+  unfold windowSum
+  rw [List.length_cons, List.range_succ_eq_map, List.filter_cons, List.filter_map]
+  have hg : ∀ l : List Nat, (l.map Nat.succ).map (fun p => ((x :: xs)[p]?).getD 0) = l.map fun p => (xs[p]?).getD 0 := by
+    intro l; rw [List.map_map]; apply List.map_congr_left; intro p _; simp
+  have hf : (List.range xs.length).filter ((fun p => decide (a ≤ p ∧ p < b)) ∘ Nat.succ)
+      = (List.range xs.length).filter (fun p => decide (a - 1 ≤ p ∧ p < b - 1)) := by
+    apply List.filter_congr
+    intro p _
+    simp only [Function.comp, decide_eq_decide]
+    omega
+  rw [hf]
+  have hg' : ((fun p => ((x :: xs)[p]?).getD 0) ∘ Nat.succ) = fun p => (xs[p]?).getD 0 := by
+    funext p; simp
+  by_cases h : a = 0 ∧ 0 < b
+  · have : decide (a ≤ 0 ∧ 0 < b) = true := by simp; omega
+    simp only [this]
+    simp [h, hg']
+  · have : decide (a ≤ 0 ∧ 0 < b) = false := by simp; omega
+    simp only [this]
+    simp [h, hg']
+
+theorem sum_take_drop (l : List Int) (a b : Nat) : ((l.take b).drop a).sum = windowSum l a b := by
+  induction l generalizing a b with
+  | nil => simp [windowSum]
+  | cons x xs ih =>
+    rw [windowSum_cons]
+    cases b with
+    | zero => simp [windowSum]
+    | succ b =>
+      cases a with
+      | zero => simp [← ih]
+      | succ a => simp [← ih]
+
+
 end Verif.C17
